@@ -16,8 +16,8 @@ import (
 // that are only *analysed*, never built into a binary or executed:
 //  - seeded defects (/verif/seeded/*/patch.diff) that some rule of the property
 //    is recorded to report must still be reported by that property's rules;
-//  - behaviour-preserving variants (/verif/variants/preserving/*.diff) must not
-//    add any failing obligation.
+//  - behaviour-preserving variants (/verif/variants/preserving/*.diff and
+//    agents/*/patch.diff) must not add any failing obligation.
 // The outcome is recorded in the evidence; it does not change the exit status,
 // which speaks about the unchanged tree only.
 
@@ -62,7 +62,10 @@ func copyTree(src, dst string) error {
 	})
 }
 
-func analyseVariant(repo, patch string, rules []*Rule) (failed map[string]bool, byRule map[string]bool, note string) {
+// analyseVariant analyses /repo + patch in a scratch copy with a fresh
+// sctpverif process (so that many variants can be swept in parallel without
+// keeping their programs in memory) and returns the failing obligations.
+func analyseVariant(prop, repo, patch string, only map[string]bool) (failed map[string]bool, byRule map[string]bool, note string) {
 	tmp, err := os.MkdirTemp("", "sctpverif-variant-")
 	if err != nil {
 		return nil, nil, "cannot create scratch dir: " + err.Error()
@@ -76,31 +79,44 @@ func analyseVariant(repo, patch string, rules []*Rule) (failed map[string]bool, 
 	if out, err := cmd.CombinedOutput(); err != nil {
 		return nil, nil, "patch does not apply to the current tree: " + strings.TrimSpace(string(out))
 	}
-	p, err := Load(tmp, "", "")
+	self, err := os.Executable()
 	if err != nil {
-		return nil, nil, "variant does not type-check: " + err.Error()
+		return nil, nil, "cannot locate the analyser binary: " + err.Error()
 	}
+	run := exec.Command(self, "check", prop, "--repo", tmp, "--no-evidence", "--tier", "quick")
+	run.Env = append(os.Environ(), "VERIF_SWEEP_CHILD=1")
+	outB, _ := run.CombinedOutput()
 	failed, byRule = map[string]bool{}, map[string]bool{}
-	for _, r := range rules {
-		res := runRule(p, r, "quick", "")
-		for _, o := range res.Obs {
-			if !o.OK {
-				failed[o.Rule+"|"+o.Construct] = true
-				byRule[o.Rule] = true
+	sawSummary := false
+	for _, line := range strings.Split(string(outB), "\n") {
+		f := strings.Fields(line)
+		if len(f) >= 3 && (f[0] == "VIOLATION" || f[0] == "UNRESOLVED") && strings.Contains(f[1], ".R") {
+			if only != nil && !only[f[1]] {
+				continue
 			}
+			failed[f[1]+"|"+f[2]] = true
+			byRule[f[1]] = true
+		}
+		if strings.HasPrefix(line, prop+":") {
+			sawSummary = true
 		}
 	}
-	p = nil
-	runtime.GC()
+	if !sawSummary {
+		return nil, nil, "variant could not be analysed (does not type-check?)"
+	}
 	return failed, byRule, ""
 }
 
 func runSweep(prop, repo, verif string, rules []*Rule, baseFailed map[string]bool) []sweepResult {
-	var out []sweepResult
 	ruleIDs := map[string]bool{}
 	for _, r := range rules {
 		ruleIDs[r.ID] = true
 	}
+	type job struct {
+		name, kind, patch string
+		only              map[string]bool
+	}
+	var jobs []job
 	metas, _ := filepath.Glob(filepath.Join(verif, "seeded", "*", "meta.json"))
 	sort.Strings(metas)
 	for _, mp := range metas {
@@ -114,60 +130,79 @@ func runSweep(prop, repo, verif string, rules []*Rule, baseFailed map[string]boo
 		if json.Unmarshal(b, &meta) != nil {
 			continue
 		}
-		var mine []*Rule
+		mine := map[string]bool{}
 		for _, id := range meta.Detected {
 			if ruleIDs[id] {
-				for _, r := range rules {
-					if r.ID == id {
-						mine = append(mine, r)
-					}
-				}
+				mine[id] = true
 			}
 		}
 		if len(mine) == 0 {
 			continue
 		}
 		dir := filepath.Dir(mp)
-		name := filepath.Base(dir)
-		_, byRule, note := analyseVariant(repo, filepath.Join(dir, "patch.diff"), mine)
-		res := sweepResult{Variant: name, Kind: "seeded"}
-		switch {
-		case note != "":
-			res.Outcome = "skipped: " + note
-		case len(byRule) > 0:
-			res.Outcome = "reported"
-			for id := range byRule {
-				res.Rules = append(res.Rules, id)
-			}
-			sort.Strings(res.Rules)
-		default:
-			res.Outcome = "LOST: no rule of " + prop + " reports this seeded defect any more"
-		}
-		out = append(out, res)
+		jobs = append(jobs, job{filepath.Base(dir), "seeded", filepath.Join(dir, "patch.diff"), mine})
 	}
 	pres, _ := filepath.Glob(filepath.Join(verif, "variants", "preserving", "*.diff"))
 	sort.Strings(pres)
 	for _, pp := range pres {
-		failed, _, note := analyseVariant(repo, pp, rules)
-		res := sweepResult{Variant: filepath.Base(pp), Kind: "preserving"}
-		switch {
-		case note != "":
-			res.Outcome = "skipped: " + note
-		default:
-			var extra []string
-			for k := range failed {
-				if !baseFailed[k] {
-					extra = append(extra, k)
+		jobs = append(jobs, job{filepath.Base(pp), "preserving", pp, nil})
+	}
+	apres, _ := filepath.Glob(filepath.Join(verif, "variants", "preserving", "agents", "*", "patch.diff"))
+	sort.Strings(apres)
+	for _, pp := range apres {
+		jobs = append(jobs, job{filepath.Base(filepath.Dir(pp)), "preserving", pp, nil})
+	}
+	out := make([]sweepResult, len(jobs))
+	workers := runtime.NumCPU()
+	if workers > 12 {
+		workers = 12
+	}
+	ch := make(chan int)
+	done := make(chan bool)
+	for w := 0; w < workers; w++ {
+		go func() {
+			for i := range ch {
+				j := jobs[i]
+				res := sweepResult{Variant: j.name, Kind: j.kind}
+				failed, byRule, note := analyseVariant(prop, repo, j.patch, j.only)
+				switch {
+				case note != "":
+					res.Outcome = "skipped: " + note
+				case j.kind == "seeded":
+					if len(byRule) > 0 {
+						res.Outcome = "reported"
+						for id := range byRule {
+							res.Rules = append(res.Rules, id)
+						}
+						sort.Strings(res.Rules)
+					} else {
+						res.Outcome = "LOST: no rule of " + prop + " reports this seeded defect any more"
+					}
+				default:
+					var extra []string
+					for k := range failed {
+						if !baseFailed[k] {
+							extra = append(extra, k)
+						}
+					}
+					sort.Strings(extra)
+					if len(extra) == 0 {
+						res.Outcome = "silent"
+					} else {
+						res.Outcome = fmt.Sprintf("FALSE-ALARM on a behaviour-preserving variant: %s", strings.Join(extra, "; "))
+					}
 				}
+				out[i] = res
 			}
-			sort.Strings(extra)
-			if len(extra) == 0 {
-				res.Outcome = "silent"
-			} else {
-				res.Outcome = fmt.Sprintf("FALSE-ALARM on a behaviour-preserving variant: %s", strings.Join(extra, "; "))
-			}
-		}
-		out = append(out, res)
+			done <- true
+		}()
+	}
+	for i := range jobs {
+		ch <- i
+	}
+	close(ch)
+	for w := 0; w < workers; w++ {
+		<-done
 	}
 	return out
 }
